@@ -180,7 +180,7 @@ impl VolExec {
                 with_ty!(esz, T, {
                     let a = Self::mk_arr::<T>(c);
                     let (o, l, mo, ml) = self.guard_info(&a.ptr_guard(), &a.ptr_guard_mut());
-                    json!({"kind": "array", "off": o, "len": a.len() * a.element_size(), "esz": a.element_size(),
+                    json!({"kind": "array", "off": o, "len": a.len().saturating_mul(a.element_size()), "esz": a.element_size(),
                            "n": a.len(), "glen": l, "gmoff": mo, "gmlen": ml})
                 })
             }
@@ -285,9 +285,10 @@ impl Exec for VolExec {
                 unsafe { *self.root_ptr().add(i) = (i % 251 + 1) as u8 };
             }
             self.root = self.cur.clone();
-            let mut ev = event(line, ok(), self.state());
-            ev["a"]["b"] = json!(self.root_ptr() as usize % 16);
-            return ev;
+            if self.root_ptr() as usize % 16 != b && n > 0 {
+                panic!("harness: could not realise base alignment {b}");
+            }
+            return event(line, ok(), self.state());
         }
 
         // resolve arguments (relative forms) up front so that the logged event carries numbers
